@@ -128,9 +128,11 @@ func (r Registry[R, T]) makeRPC(
 					results = []reflect.Value{valueReturnValue, errReturnValue}
 				}
 			}
+			verifTrace("call.return", name)
 		}()
 
 		callID := uuid.NewString()
+		verifTrace("call.start", callID)
 
 		cmd := utils.Request[T]{
 			Call:     callID,
@@ -181,26 +183,32 @@ func (r Registry[R, T]) makeRPC(
 		if err != nil {
 			panic(err)
 		}
+		verifYield("call.registered", callID)
 
 		res := make(chan callResponse[T])
 		go func() {
 			defer responseResolver.Free(callID, context.Canceled)
+			verifYield("waiter.start", callID)
 
 			r, err := rr()
 			if err != nil {
 				r = &callResponse[T]{*new(T), err, true}
 			}
+			verifYield("waiter.send", callID)
 
 			res <- *r
+			verifYield("waiter.sent", callID)
 		}()
 
 		if err := writeRequest(b); err != nil {
 			panic(err)
 		}
+		verifYield("call.select", callID)
 
 		returnValues := []reflect.Value{}
 		select {
 		case rawReturnValue := <-res:
+			verifTrace("call.res", callID)
 			if functionType.NumOut() == 1 {
 				returnValue := reflect.New(functionType.Out(0))
 
@@ -230,6 +238,7 @@ func (r Registry[R, T]) makeRPC(
 				returnValues = append(returnValues, valueReturnValue.Elem(), errReturnValue.Elem())
 			}
 		case <-linkCtx.Done():
+			verifTrace("call.linkctx", callID)
 			panic(linkCtx.Err())
 		}
 
@@ -612,13 +621,16 @@ func (r Registry[R, T]) LinkMessage(
 	// of the caller to clean those up by making sure that the read/write
 	// functions return errors - e.g. by closing the connection
 	setErr := func(err error) {
+		verifYield("seterr.enter", verifErrString(err))
 		if err == nil {
 			responseResolver.Close(context.Canceled)
 		} else {
 			responseResolver.Close(err)
 		}
 
+		verifYield("seterr.lock", verifErrString(err))
 		fatalErrLock.L.Lock()
+		verifTrace("seterr.store", verifErrString(err))
 		fatalErr = err
 		fatalErrLock.Broadcast()
 		fatalErrLock.L.Unlock()
@@ -659,6 +671,7 @@ func (r Registry[R, T]) LinkMessage(
 		if r.hooks.OnClientConnect != nil {
 			r.hooks.OnClientConnect(remoteID)
 		}
+		verifTrace("setup.registered", remoteID)
 
 		r.remotesLock.Unlock()
 
@@ -669,6 +682,7 @@ func (r Registry[R, T]) LinkMessage(
 			if r.hooks.OnClientDisconnect != nil {
 				r.hooks.OnClientDisconnect(remoteID)
 			}
+			verifTrace("setup.unregistered", remoteID)
 
 			r.remotesLock.Unlock()
 		}()
@@ -693,6 +707,7 @@ func (r Registry[R, T]) LinkMessage(
 
 					return
 				}
+				verifYield("req.frame", req.Call)
 
 				go func() {
 					function, args, err := r.findLocalFunctionToCallRecursively(
@@ -717,7 +732,9 @@ func (r Registry[R, T]) LinkMessage(
 					}
 
 					go func() {
+						verifYield("handler.start", req.Call)
 						res, err := utils.Call(function, args)
+						verifYield("handler.done", req.Call)
 						if err != nil {
 							setErr(err)
 
@@ -880,12 +897,14 @@ func (r Registry[R, T]) LinkMessage(
 				if strings.TrimSpace(res.Err) != "" {
 					err = errors.New(res.Err)
 				}
+				verifYield("resp.frame", res.Call)
 
 				go responseResolver.Publish(res.Call, callResponse[T]{res.Value, err, false})
 			}
 		}()
 
 		wg.Wait()
+		verifTrace("setup.loopsdone", remoteID)
 	}()
 
 	fatalErrLock.L.Lock()
@@ -896,6 +915,7 @@ func (r Registry[R, T]) LinkMessage(
 		err = fatalErr
 	}
 	fatalErrLock.L.Unlock()
+	verifTrace("link.return", verifErrString(err))
 
 	return err
 }
@@ -926,15 +946,18 @@ func (r Registry[R, T]) LinkStream(
 				decodeErr = err
 
 				close(decodeDone)
+				verifTrace("dec.exit", "")
 
 				break
 			}
 
 			if msg.Request != nil {
+				verifYield("dec.handreq", "")
 				requests <- *msg.Request
 			}
 
 			if msg.Response != nil {
+				verifYield("dec.handres", "")
 				responses <- *msg.Response
 			}
 		}
